@@ -575,6 +575,41 @@ def direct_views(ctx, res, case, rawA, rawB, scrA, scrB, lines, expect_cb):
                     expect_cb.append((kind, dict(c, screen=tag), out, "C04:add-direct:" + kind))
 
 
+def arity_stream(ctx, res, lines, expect_cb):
+    """screens with 1 or 3 treatments per experiment: SparseDrugComboInteraction refuses them (ValueError), SparseDrugCombo reads
+    the first two treatment columns (IndexError when there is only one); the outcome must not depend on masked values and must be
+    the model's (these are the `arity != 2` / `firstTwo` branches of the Lean model)"""
+    rng = ctx.subrng("c04-arity")
+    for t in range(ctx.scale(16, 120, 40)):
+        raw = S.gen_raw(rng, n_max=10, arity=rng.choice([1, 3, 3]), n_plates=rng.randint(2, 4), all_observed=False, ctrl="control",
+                        n_samples=rng.randint(1, 2), obs_values=[0.1, 0.5, 0.9, 0.25, 1.0, 0.0, 0.62])
+        if raw["mask"] is None:
+            raw["mask"] = [True] * len(raw["snames"])
+        rawB = poisoned(raw, rng, "nan" if t % 2 else "mixed")
+        try:
+            scrA, scrB = S.build(raw), S.build(rawB)
+        except Exception:   # noqa: BLE001
+            res.count("arity.build-refused")
+            continue
+        for kind in ("combo", "interaction"):
+            c = {"raw": raw, "poison": "nan" if t % 2 else "mixed", "seed": 100000 + t, "model": kind, "check": "arity"}
+            outs = []
+            for scr in (scrA, scrB):
+                try:
+                    outs.append(train_arrays(kind, scr)[1])
+                except Exception as e:   # noqa: BLE001
+                    outs.append(S.err_tok(e))
+            res.evaluations += 1
+            res.count("arity.%d.%s.%s" % (raw["arity"], kind, outs[0] if isinstance(outs[0], str) else "ok"))
+            ca = [o if isinstance(o, str) else rec_canon(o) for o in outs]
+            if ca[0] != ca[1]:
+                res.fail("training outcome differs between screens that differ only behind the mask", c, {"A": ca[0], "B": ca[1]}, "identical",
+                         signature="C04:train-interference:" + kind)
+            for tag, r_, out in (("A", raw, outs[0]), ("B", rawB, outs[1])):
+                lines.append("train %s %s" % (kind, S.raw_to_tokens(r_)))
+                expect_cb.append((kind, dict(c, screen=tag), out, "C04:train-arity:" + kind))
+
+
 def flush(ctx, res, lines, expect_cb):
     if ctx.driver is not None and lines:
         got = ctx.driver.ask(lines)
@@ -628,6 +663,7 @@ def run(ctx, res):
                 res.sample({"poison": poison, "plates": raw["pnames"], "mask": raw["mask"], "obs": [repr(x) for x in raw["obs"]]})
             if len(lines) > 2000:
                 flush(ctx, res, lines, expect_cb)
+        arity_stream(ctx, res, lines, expect_cb)
         flush(ctx, res, lines, expect_cb)
     finally:
         shutil.rmtree(env, ignore_errors=True)
@@ -637,6 +673,19 @@ def replay(ctx, case, res):
     quiet()
     env = tempfile.mkdtemp(prefix="verif_c04_")
     try:
+        if case.get("check") == "arity":
+            rawB = poisoned(case["raw"], ctx.subrng("c04-arity-replay"), "nan")
+            scrA, scrB = S.build(case["raw"]), S.build(rawB)
+            outs = []
+            for scr in (scrA, scrB):
+                try:
+                    outs.append(rec_canon(train_arrays(case["model"], scr)[1]))
+                except Exception as e:   # noqa: BLE001
+                    outs.append(S.err_tok(e))
+            if outs[0] != outs[1]:
+                res.fail("training outcome differs between screens that differ only behind the mask", case, {"A": outs[0], "B": outs[1]}, "identical",
+                         signature="C04:train-interference:" + case["model"])
+            return
         c = {k: case[k] for k in ("raw", "poison", "seed") if k in case}
         c["ncs"] = case.get("ncs", [1, 2])
         if "model" in case:
